@@ -31,6 +31,7 @@ pub fn exec(op: &str, args: &[&str]) -> String {
         "rprove" => range::op_rprove(args),
         "rmprove" => "emit:".to_string(),
         "decode" => enc::op_decode(args),
+        "serde" => enc::op_serde(args),
         "extract" => enc::op_extract(args),
         "fromstr" => enc::op_fromstr(args),
         "tostr" => enc::op_tostr(args),
